@@ -201,6 +201,69 @@ def make_ob(magic, v, name, fields, flag, tier):
               oracle="R-model marshal_ref" + ("; replay on real %d.%d" % v if v in c10.REAL else " (no interpreter)"))
 
 
+def corpus_ob():
+    """the repository's own corpus through xdis and through the real marshal of each file's version (concrete)"""
+    import glob
+    VERS = {(2, 7): ("bytecode_2.7", 8), (3, 6): ("bytecode_3.6", 12), (3, 7): ("bytecode_3.7", 16), (3, 8): ("bytecode_3.8", 16),
+            (3, 9): ("bytecode_3.9", 16), (3, 10): ("bytecode_3.10", 16), (3, 11): ("bytecode_3.11", 16), (3, 12): ("bytecode_3.12", 16)}
+
+    def diffs():
+        import os
+        import sys
+        import xdis.load as LD
+        from engine import oracles
+        bad = []
+        n = 0
+        devnull = open(os.devnull, "w")
+        for ver, (sub, hdr) in sorted(VERS.items()):
+            files = sorted(glob.glob("/repo/test/%s/*.pyc" % sub))
+            if not files or ver not in oracles.INTERPS:
+                continue
+            datas = [open(f, "rb").read()[hdr:] for f in files]
+            reals = R.real_loads(ver, datas)
+            for f, real in zip(files, reals):
+                if "err" in real:
+                    continue
+                saved = sys.stdout, sys.stderr
+                sys.stdout = sys.stderr = devnull
+                try:
+                    try:
+                        import io
+                        import xdis.magics as M
+                        import xdis.unmarshal as U
+                        raw = open(f, "rb").read()
+                        magic = M.magic2int(raw[:4])
+                        if tuple(M.magic_int2tuple(magic)[:2]) != ver:
+                            continue
+                        co = U.load_code(io.BytesIO(raw[hdr:]), magic, False, {})   # always the portable unmarshaller
+                    except Exception as e:
+                        bad.append("%s: xdis cannot load what CPython %d.%d loads: %s" % (f, ver[0], ver[1], str(e)[:80]))
+                        continue
+                finally:
+                    sys.stdout, sys.stderr = saved
+                n += 1
+                got = R.tag_json(co)
+                if not R.json_eq(got, real["ok"], ver < (3, 0)):
+                    names = [k for k in real["ok"][1] if k in got[1] and not R.json_eq(got[1][k], real["ok"][1][k], ver < (3, 0))]
+                    bad.append("%s: fields %r differ from what CPython %d.%d's marshal loads" % (os.path.relpath(f, "/repo/test"), names, ver[0], ver[1]))
+        devnull.close()
+        return bad, n
+
+    def q():
+        bad, n = diffs()
+        if bad:
+            return "refuted", "%d of the corpus files differ" % len(bad), {"first": bad[0][:80]}, 0, 0.0
+        return "confirmed", "%d corpus files" % n, None, 0, 0.0
+
+    def replay(first):
+        bad, n = diffs()
+        return bad[0] if bad else None
+
+    return Ob(id="C01.corpus", prop="C01", params=[], body=None, direct=q, replay=replay, funcs=FUNCS, region="corpus",
+              skeleton="repository bytecode corpus (2.7, 3.6-3.12) through load_module and through the real marshal of each version",
+              bound="every corpus file its interpreter loads", timeout=600, oracle="R-real marshal.loads (concrete)")
+
+
 _VAL = [0]
 
 
@@ -247,4 +310,5 @@ def generate(tier, seed):
     for magic, v in sorted(ms.items()):
         for name, fields, flag in skeletons(v, tier):
             obs.append(make_ob(magic, v, name, fields, flag, tier))
+    obs.append(corpus_ob())
     return obs
